@@ -17,7 +17,7 @@ KINDS = ["text", "btext", "s", "tab", "lb", "span", "link", "note", "annot", "bm
 CONTAINERS = ["p", "h", "li", "cell", "notebody", "textbox"]
 RULE = (
     "E: paragraphs holding every ordered adjacency of inline kinds {text, blank-edged text, text:s, text:tab, text:line-break, "
-    "span, link, note, annotation, bookmark, frame-with-image, field} of length <= 3 inside text:p, and (length <= 2, thorough 3) inside text:h, list "
+    "span, link, note, annotation, bookmark, frame-with-image, field} (plus 8 nested kinds - span/link ending with a tail-less inline element - up to length 2) of length <= 3 inside text:p, and (length <= 2, thorough 3) inside text:h, list "
     "item, table cell, note body and text box, all placed in one text document per batch; S/H: every corpus document and the 4 "
     "templates with a short generated edit history. Configurations: pretty in {False, True} x packaging in {zip, folder, xml} and "
     "save sequences (plain.plain, pretty.plain, pretty.pretty, folder.zip). Oracle relative to the plain zip save, per XML part "
@@ -38,6 +38,14 @@ def inline(kind, n):
     from odfdo import Annotation, Bookmark, Frame, LineBreak, Link, Note, Paragraph, Spacer, Span, Tab
     from odfdo.variable import VarPageNumber
 
+    if ">" in kind:
+        # nested: an inline container whose last child is a tail-less inline element
+        outer, rest = kind.split(">", 1)
+        cont = Span(f"sp{n}", style="T1") if outer == "span" else Link("http://example.org/", text=f"ln{n}")
+        from odfdo import Element as _E
+
+        _E.append(cont, inline(rest, n + 1000))
+        return cont
     if kind == "s":
         return Spacer(2)
     if kind == "tab":
@@ -248,10 +256,13 @@ def judge_flat(ctx, ref_parts, data, how, case):
 
 
 # ------------------------------------------------------------------ drivers
+NESTED = ["span>s", "span>tab", "span>lb", "span>bm", "span>note", "link>s", "span>span>s", "span>field"]
+
+
 def enum_cases(maxlen):
     n = 0
     for L in range(1, maxlen + 1):
-        for seq in itertools.product(KINDS, repeat=L):
+        for seq in itertools.product(KINDS + NESTED if L <= 2 else KINDS, repeat=L):
             for gaps in itertools.product((False, True), repeat=max(L - 1, 0)):
                 n += 1
                 yield n, seq, gaps
